@@ -353,6 +353,9 @@ func (e *FunctionCallExpr) Value(ctx *hcl.EvalContext) (cty.Value, hcl.Diagnosti
 	varParam := f.VarParam()
 
 	args := e.Args
+	// expandMarks are the marks of an expanded collection that has no
+	// elements that could carry them into the call.
+	var expandMarks cty.ValueMarks
 	if e.ExpandFinal {
 		if len(args) < 1 {
 			// should never happen if the parser is behaving
@@ -403,6 +406,12 @@ func (e *FunctionCallExpr) Value(ctx *hcl.EvalContext) (cty.Value, hcl.Diagnosti
 			// the collection itself, and apply any marks directly to the
 			// elements. This ensures that marks propagate correctly.
 			expandVal, marks := expandVal.Unmark()
+			if expandVal.LengthInt() == 0 {
+				// The number of arguments depends on the marked collection,
+				// so the result does too, but there is no element to apply
+				// the marks to: we'll apply them to the result instead.
+				expandMarks = marks
+			}
 			newArgs := make([]Expression, 0, (len(args)-1)+expandVal.LengthInt())
 			newArgs = append(newArgs, args[:len(args)-1]...)
 			it := expandVal.ElementIterator()
@@ -629,6 +638,9 @@ func (e *FunctionCallExpr) Value(ctx *hcl.EvalContext) (cty.Value, hcl.Diagnosti
 		return cty.DynamicVal, diags
 	}
 
+	if len(expandMarks) > 0 {
+		resultVal = resultVal.WithMarks(expandMarks)
+	}
 	return resultVal, diags
 }
 
